@@ -113,7 +113,17 @@ def load_known():
         return []
     return json.load(open(p)).get('findings', [])
 
+_PROBE = {}
+def probe_flags():
+    """-DVERIF_NO_OBJECT_INVARIANTS when struct cat_object lacks a field the structural invariants read (see harness/probe_fields.c)"""
+    if 'f' not in _PROBE:
+        r = subprocess.run(['gcc', '-fsyntax-only', '-I' + os.path.join(REPO, 'src'), os.path.join(HARN, 'probe_fields.c')], capture_output=True, text=True)
+        _PROBE['f'] = [] if r.returncode == 0 else ['-DVERIF_NO_OBJECT_INVARIANTS']
+        if _PROBE['f']: log('note: struct cat_object lacks a field the structural invariants read; they are switched off for this run')
+    return _PROBE['f']
+
 def compiler_cmd(cc, flags, prog, qcap, out, extra):
+    flags = flags + probe_flags()
     srcs = [os.path.join(HARN, prog + '.c')] + [os.path.join(HARN, s) for s in COMMON + extra if os.path.exists(os.path.join(HARN, s))]
     return [cc] + flags + ['-DCAT_UNSOLICITED_CMD_BUFFER_SIZE=%d' % qcap] + srcs + [os.path.join(REPO, 'src', 'cat.c'), '-o', out, '-lm']
 
@@ -411,7 +421,7 @@ def c17_custom(pid, tier, seed, t0):
             if kind == 'mismatch' or d.get('bad_lockfree', 0):
                 path = os.path.join(rdir, 'C17-mt_stress-%s-q%d-P%d-s%d.txt' % (tag, q, P, sd))
                 open(path, 'w').write(json.dumps({'prog': 'mt_stress', 'tag': tag, 'qcap': q, 'producers': P, 'seed': sd, 'triggers': triggers, 'prop': 'C17'}) + '\n' + json.dumps(d, indent=1))
-                key = ('unlock-by-non-owner' if d.get('unlock_errors', 0) else 'state-changed-while-another-thread-held-the-mutex' if d.get('frozen_violations', 0) else
+                key = ('line-torn-on-the-wire' if d.get('wire_torn', 0) else 'unlock-by-non-owner' if d.get('unlock_errors', 0) else 'state-changed-while-another-thread-held-the-mutex' if d.get('frozen_violations', 0) else
                        'api-status-not-a-documented-one' if d.get('odd_status', 0) else 'delivered-not-accepted' if d.get('producers_with_mismatch', 0) else 'lock-free-query-wrong')
                 viols.append({'prop': 'C17', 'key': key, 'case': '%s q%d P%d seed %d' % (tag, q, P, sd), 'msg': 'per producer [accepted, refused, delivered] = %s; unlock errors %d, frozen-state violations %d of %d checks' % (d['per_producer'], d.get('unlock_errors', 0), d.get('frozen_violations', 0), d.get('frozen_checks', 0)), 'replay': path})
         elif kind == 'race':
@@ -432,7 +442,7 @@ def c17_custom(pid, tier, seed, t0):
     agg.counters = {'lock_handovers': tot.get('handovers', 0), 'buffer_full_answers': tot.get('refused_full', 0), 'triggers_accepted': tot.get('accepted', 0), 'events_delivered': tot.get('delivered', 0),
                     'contended_lock_attempts': tot.get('contended_locks', 0), 'holds_entered': tot.get('holds_entered', 0), 'lock_calls': tot.get('lock_calls', 0),
                     'lock_failures_injected_by_timed_mutex': tot.get('lock_failures', 0), 'runs_with_failing_lock': sum(1 for r in runs if timed[r]),
-                    'bystander_checks_parser_state_frozen_under_its_lock': tot.get('frozen_checks', 0), 'variable_read_callbacks_failing': tot.get('var_read_failures', 0), 'event_handler_chains_next_data_next': tot.get('event_handler_chains', 0)}
+                    'bystander_checks_parser_state_frozen_under_its_lock': tot.get('frozen_checks', 0), 'variable_read_callbacks_failing': tot.get('var_read_failures', 0), 'event_handler_chains_next_data_next': tot.get('event_handler_chains', 0), 'wire_torn': tot.get('wire_torn', 0)}
     rule = 'one case = one multi-threaded run (service thread + 1/2/4/8 producer threads x %d triggers each, real pthread mutex, randomised yields between API calls; command traffic incl. holds and command lists, failing variable callbacks; a bystander thread that takes the mutex and checks that the parser object does not change meanwhile; error-checking mutex) under ThreadSanitizer for one queue capacity and seed; non-trivial = the lock changed hands between threads and at least one trigger was refused with BUFFER_FULL; distinct by (build, capacity, producers, seed)' % triggers
     shutil.rmtree(bdir, ignore_errors=True)
     report_and_exit(pid, tier, seed, 'exploration', agg, t0, {'lock_handovers': 1000, 'buffer_full_answers': 100, 'triggers_accepted': 1000, 'lock_failures_injected_by_timed_mutex': 100}, rule,
